@@ -240,3 +240,15 @@ package metric
 //@   modifies *
 //@   ensures[a_decoded_row_comes_from_a_context_that_was_reset_for_it] true
 //@ end
+
+//@ # ---- (re)use of the family iterator (C13, C16): the iterator lives inside a pooled batch object; every reset binds it to
+//@ # the calculator of the interval it is given (a calculator left over from the batch's previous database would group the
+//@ # rows by the wrong family unit) ---------------------------------------------------------------------------------
+//@ func BrokerBatchShardFamilyIterator.reset
+//@   prop C13 C16
+//@   arith math
+//@   requires forall(i, 0, len(rows), tsOK(metricTs(rows[i].m)))
+//@   modifies itr.groupEnd, itr.groupStart, itr.rows, itr.intervalCalc, itr.groupFamilyTime, itr.sameFamily, rows[*]
+//@   ensures[the_rows_are_grouped_by_the_calculator_of_the_given_interval] itr.intervalCalc != nil && (int64(interval) >= 3600000 ==> timeutil.calc_kind(itr.intervalCalc) == 3) && ((int64(interval) >= 300000 && int64(interval) < 3600000) ==> timeutil.calc_kind(itr.intervalCalc) == 2) && (int64(interval) < 300000 ==> timeutil.calc_kind(itr.intervalCalc) == 1)
+//@   ensures[a_fresh_group_cursor] itr.groupStart == 0 && itr.groupEnd == 0 && len(itr.rows) == len(rows)
+//@ end
